@@ -77,16 +77,17 @@ func (g *Graph) Files() map[string]string {
 
 // Config steers generation.
 type Config struct {
-	MaxModules   int  // default 5
-	AllowCJS     bool // mix in CommonJS modules
-	AllowCycles  bool
-	AllowDynamic bool
-	AllowThrow   bool // a module may throw at top level
-	ESMEntry     bool // force module 0 to be ESM
-	MultiEntry   int  // >0: first k modules are entry points (ESM), used by C10
-	MutableLets  bool // exported `let` counters mutated from other modules via exported functions
-	Unused       bool // add declarations and whole modules that nothing uses (C04)
-	DeferLive    bool // mutate shared counters without logging the value at once (C10: cross-module order may differ)
+	MaxModules          int  // default 5
+	AllowCJS            bool // mix in CommonJS modules
+	AllowCycles         bool
+	AllowDynamic        bool
+	AllowThrow          bool // a module may throw at top level
+	ESMEntry            bool // force module 0 to be ESM
+	MultiEntry          int  // >0: first k modules are entry points (ESM), used by C10
+	MutableLets         bool // exported `let` counters mutated from other modules via exported functions
+	Unused              bool // add declarations and whole modules that nothing uses (C04)
+	DeferLive           bool // mutate shared counters without logging the value at once (C10: cross-module order may differ)
+	ThisOfNamespaceCall bool // also call ns.f() on a namespace import (receiver = the namespace object natively)
 }
 
 type gen struct {
@@ -301,7 +302,7 @@ func (g *gen) body(i int) Module {
 			w(`Promise.resolve()%s;`, strings.Join(cjsDyn, ""))
 		}
 		w(`exports.a%d = p(%d, "A%d");`, i, g.id(), i)
-		w(`exports.f%d = function () { return "F%d"; };`, i, i)
+		w(`exports.f%d = function () { return "F%d" + (this == null || this === globalThis ? "" : ":recv"); };`, i, i)
 		w(`exports.c%d = %d;`, i, i*10)
 		if g.chance(25, "esmodule-flag") {
 			w(`exports.__esModule = true;`)
@@ -330,7 +331,10 @@ func (g *gen) body(i int) Module {
 		case ImportNamed:
 			l1, l2 := fmt.Sprintf("a%d_in%d", to, i), fmt.Sprintf("f%d_in%d", to, i)
 			w(`import { a%d as %s, f%d as %s } from "%s";`, to, l1, to, l2, spec)
-			uses = append(uses, use{l1, "named"}, use{l2 + "()", "namedcall"})
+			// the receiver an imported function sees must not change: plain call, tagged template,
+			// optional call and parenthesised call all pass `this` = undefined natively
+			call := []string{l2 + "()", l2 + "`t`", l2 + "?.()", "(" + l2 + ")()"}[g.intn(4, "callstyle")]
+			uses = append(uses, use{l1, "named"}, use{call, "namedcall"})
 			if !tcjs && g.cfg.MutableLets {
 				l3, l4 := fmt.Sprintf("c%d_in%d", to, i), fmt.Sprintf("inc%d_in%d", to, i)
 				w(`import { c%d as %s, inc%d as %s } from "%s";`, to, l3, to, l4, spec)
@@ -353,6 +357,10 @@ func (g *gen) body(i int) Module {
 			l := fmt.Sprintf("ns%d_in%d", to, i)
 			w(`import * as %s from "%s";`, l, spec)
 			uses = append(uses, use{"Object.keys(" + l + ").sort().join(\",\")", "namespace-keys"}, use{fmt.Sprintf("%s.a%d", l, to), "namespace-member"})
+			if g.cfg.ThisOfNamespaceCall {
+				g.labels["namespace-call"] = true
+				uses = append(uses, use{fmt.Sprintf("%s.f%d()", l, to), "namespace-call"})
+			}
 		case ImportSide:
 			w(`import "%s";`, spec)
 		case ExportFrom:
@@ -375,7 +383,7 @@ func (g *gen) body(i int) Module {
 		decl = []string{"let", "const"}[g.intn(2, "lc")]
 	}
 	w(`export %s a%d = p(%d, "A%d");`, decl, i, g.id(), i)
-	w(`export function f%d() { return "F%d"; }`, i, i)
+	w(`export function f%d() { return "F%d" + (this == null || this === globalThis ? "" : ":recv"); }`, i, i)
 	cdecl := "var"
 	if !g.inCyc[i] {
 		cdecl = "let"
